@@ -507,12 +507,21 @@ theorem incrby_spec (ctx : Ctx) (db : Db) (nd : NodupKeys db.dict) (ne : NoEmpty
       | .ok a => incrSpec db.live k a :=
   (refinement "incrby" _ _ rfl ctx _ db nd).trans (incrby_runL ctx db.time db.live (liveOK ne) k nb)
 
+/-- DECRBY k n: `n` must be a 64-bit integer; `n = -9223372036854775808` (which cannot be negated) is refused
+with "decrement would overflow" and nothing changes, whatever string the key holds and also for a missing key
+(a key of another type is WRONGTYPE, as for every amount); every other `n` is `INCRBY k (-n)` -/
 theorem decrby_spec (ctx : Ctx) (db : Db) (nd : NodupKeys db.dict) (ne : NoEmpty db.dict) (k nb : Bytes) :
     let out := runRegular sigDecrby Cmd.decrby ctx none [k, nb] db
     (out.reply, out.db.live) =
       match Conv.int nb with
       | .error m => (.err (strBytes m), db.live)
-      | .ok a => incrSpec db.live k (-a) :=
+      | .ok a =>
+        if a = -9223372036854775808 then
+          match db.live k with
+          | none => (.err (strBytes Msgs.DECR_OVERFLOW_MSG), db.live)
+          | some ⟨.str _, _⟩ => (.err (strBytes Msgs.DECR_OVERFLOW_MSG), db.live)
+          | some _ => (wrongtype, db.live)
+        else incrSpec db.live k (-a) :=
   (refinement "decrby" _ _ rfl ctx _ db nd).trans (decrby_runL ctx db.time db.live (liveOK ne) k nb)
 
 /-- INCRBYFLOAT: both the stored string and the increment are decoded by `Conv.float`; an infinite or NaN
@@ -548,25 +557,45 @@ example :
     strView ((incrSpec live [97] 1).2 [97]) = some ([49, 48, 48], some 70) := by
   with_unfolding_all decide
 
-/-- OBSERVATION (to be compared with a real server): `DECRBY k -9223372036854775808` is executed as
-`INCRBY k 9223372036854775808` on the unbounded integers, so it SUCCEEDS whenever the stored value is negative
-(Redis ≥ 6.2.7 / 7.0 refuse this decrement with "decrement would overflow").
-Witness: `SET k -1`, `DECRBY k -9223372036854775808` replies `9223372036854775807`. -/
-theorem decrby_int_min (ctx : Ctx) (db : Db) (nd : NodupKeys db.dict) (ne : NoEmpty db.dict) (k nb : Bytes)
-    (hn : Conv.int nb = .ok (-(2 ^ 63))) :
+/-- `DECRBY k -9223372036854775808` is REFUSED (as Redis ≥ 6.2.7 / 7.0 do): for every stored string — in
+particular a negative one, where the unbounded sum would be in range — and for a missing key the reply is
+"ERR decrement would overflow" and the key space is unchanged.
+(Before the fix the model answered `SET k -1`, `DECRBY k -9223372036854775808` with `9223372036854775807`.) -/
+theorem decrby_int_min_refused (ctx : Ctx) (db : Db) (nd : NodupKeys db.dict) (ne : NoEmpty db.dict) (k nb : Bytes)
+    (hn : Conv.int nb = .ok (-(2 ^ 63))) (hstr : notStr (db.live k) = false) :
     let out := runRegular sigDecrby Cmd.decrby ctx none [k, nb] db
-    (out.reply, out.db.live) = incrSpec db.live k (2 ^ 63) := by
+    (out.reply, out.db.live) = (.err (strBytes Msgs.DECR_OVERFLOW_MSG), db.live) := by
   have h := decrby_spec ctx db nd ne k nb
-  simp only [hn] at h
+  have h63 : (-(2 ^ 63) : Int) = -9223372036854775808 := by decide
+  simp only [hn, h63, if_true] at h
   show _ = _
-  rw [h]; rfl
+  rw [h]
+  cases hl : db.live k with
+  | none => rfl
+  | some it =>
+    obtain ⟨v, e⟩ := it
+    cases v with
+    | str b => rfl
+    | _ => simp [hl, notStr] at hstr
 
+/-- every other amount still behaves as `INCRBY k (-n)` -/
+theorem decrby_other (ctx : Ctx) (db : Db) (nd : NodupKeys db.dict) (ne : NoEmpty db.dict) (k nb : Bytes) (a : Int)
+    (hn : Conv.int nb = .ok a) (ha : a ≠ -(2 ^ 63)) :
+    let out := runRegular sigDecrby Cmd.decrby ctx none [k, nb] db
+    (out.reply, out.db.live) = incrSpec db.live k (-a) := by
+  have h := decrby_spec ctx db nd ne k nb
+  have h63 : (-(2 ^ 63) : Int) = -9223372036854775808 := by decide
+  rw [h63] at ha
+  simp only [hn, if_neg ha] at h
+  exact h
+
+/-- non-vacuity: the amount is a valid 64-bit integer, the witness key of the old finding holds the string `-1` -/
 example :
     let live : Bytes → Option Item := fun k => if k = [97] then some ⟨.str [45, 49], none⟩ else none
     Conv.int [45, 57, 50, 50, 51, 51, 55, 50, 48, 51, 54, 56, 53, 52, 55, 55, 53, 56, 48, 56] = .ok (-(2 ^ 63)) ∧
-    intView (incrSpec live [97] (2 ^ 63)).1 = some 9223372036854775807 := by
-  refine ⟨rfl, ?_⟩
-  with_unfolding_all decide
+    notStr (live [97]) = false ∧ notStr (live [98]) = false ∧
+    Conv.int [53] = .ok 5 ∧ (5 : Int) ≠ -(2 ^ 63) := by
+  refine ⟨rfl, by decide, by decide, rfl, by decide⟩
 
 /-! ## 3b. the in-place string commands on the key space (their byte-level content is `FR.Props.C01`) -/
 
